@@ -1018,6 +1018,20 @@ example : (SIB.compute [] exAn exAv exS1).out.map (fun hc => hc.1.bins) =
     [.node [.node [.leaf 0, .leaf 0], .node [.leaf 0, .leaf 0], .node [.leaf 0, .leaf 1]]] := by rfl
 example : NotNested1 exEdges := by intro axes h; cases h; decide
 
+-- exceptions as outcomes: an analysis that refuses every value (`fill_error_is_cells`) and whose generator
+-- raises at once (`compute_raise`)
+def exBad : Analysis (List (List Int)) (List Int) Nat Unit where
+  fill := fun _ _ => .error ()
+  compute := fun _ => ⟨[], some ()⟩
+
+example : SIB.fillAll [] exBad exAv exG exS0 [.bare [3, 1], .bare [3, 6]] = .error (0, .inner ()) := by
+  obtain ⟨c, _, herr, _⟩ := (fill_one [] exBad exAv exG (s := exS0) exEdges_valid (C06.hasShape_full _ _)
+    (.bare [3, 1])).2.2 [2, 1] ex_route_in
+  simp [SIB.fillAll, SIB.fillAllFrom, herr () rfl]
+
+example : (SIB.compute [] exBad exAv exS0).fin = some (.inner ()) ∧ (SIB.compute [] exBad exAv exS0).out = [] := by
+  constructor <;> rfl
+
 -- `iterate_bins_once`, `iterate_cell_context`, `map_bins_shape`: a histogram of two cells with contexts
 def exH : Hist Int (Value Int) := ⟨.flat [0, 2, 4], .node [.leaf (.pair 7 [none, none]), .leaf (.bare 8)]⟩
 theorem exH_valid : ValidEdges exH.edges := by
